@@ -99,7 +99,7 @@ def run(tier, seed, replay=None):
                             str(per_mille)], env=env, capture_output=True, text=True)
         if r.returncode != 0:
             raise ToolError("rfv-unit makediff failed: " + r.stderr[-2000:])
-        recs = [json.loads(x) for x in r.stdout.splitlines() if x.strip()]
+        recs = [json.loads(x) for x in r.stdout.split("\n") if x.strip()]
         summary = [x for x in recs if x.get("summary")][0]
         recs = [x for x in recs if not x.get("summary")]
 
@@ -110,6 +110,16 @@ def run(tier, seed, replay=None):
             for b in NASTY[i + 1:]:
                 pairs.append({"o": f"fn f() {{\n{a}\n}}\n", "f": f"fn f() {{\n{b}\n{a}\n}}\n",
                               "name": "nasty"})
+        # every kind of character XML 1.0 treats specially, alone on a changed line and next to
+        # each of the five characters that need an entity
+        odd = ["\x01", "\x08", "\x0b", "\x0c", "\x1f", "\x7f", "\x85", "\u2028", "\ufffe", "\uffff",
+               "\ufffd", "\t", "\U0001F98A"]
+        for ch in odd:
+            for sp in ("", "<", ">", "&", '"', "'", "]]>"):
+                ln = f"// c{ch}d {sp}".rstrip()
+                pairs.append({"o": "fn f() {\n    let x = 1;\n}\n",
+                              "f": f"fn f() {{\n    {ln}\n    let x = 1;\n}}\n",
+                              "name": f"odd:{ord(ch):x}:{sp}"})
         pairs.append({"o": "a\r\nb\r\n", "f": "a\nb\n", "name": "crlf"})
         pairs.append({"o": "a\nb", "f": "a\nb\n", "name": "final-nl"})
         src = sorted((core.REPO / "tests" / "source").glob("*.rs"))
@@ -126,7 +136,7 @@ def run(tier, seed, replay=None):
                             text=True)
         if r2.returncode != 0:
             raise ToolError("rfv-unit makediff-pairs failed: " + r2.stderr[-2000:])
-        recs2 = [json.loads(x) for x in r2.stdout.splitlines() if x.strip()]
+        recs2 = [json.loads(x) for x in r2.stdout.split("\n") if x.strip()]
         allrecs = recs + recs2
         for rec in allrecs:
             post_checkstyle(rec)
